@@ -6,6 +6,7 @@ import json
 import os
 
 import common as C
+import geo
 import tess as T
 
 
@@ -88,7 +89,9 @@ def run(res, replay=None):
         ctx = {"input": T.inp_json(inp), "cell": ci, "sites": sites, "perm_seed": ps}
         res.count(f"{inp['family']}:k={min(len(sites), 9)}{'+' if len(sites) > 9 else ''}")
         if o is None or "panic" in o:
-            res.violation("C18:panic-before-permutation", f"clipping cell {ci} by its {len(sites)} nearest bisectors panicked: {(o or {}).get('panic')}", ctx)
+            # the construction up to the clip under test failed: that is not about storage order; it is reported with the panic signature of the
+            # tessellation checks (classes K1/K2/K4 of the recorded findings, decided from the input and the decision trace)
+            res.violation("panic:" + geo.panic_signature(o, inp), f"clipping cell {ci} by its {len(sites)} nearest bisectors panicked before the clip under test: {(o or {}).get('panic')}", ctx)
             continue
         runs = o["runs"]
         if o["n_removed"] >= 2:
